@@ -551,6 +551,21 @@ Section Facts.
     - unfold Repair.repair_nodes. cbn in E1, E2. rewrite E1, E2. reflexivity.
   Qed.
 
+  (* ---------- the switch omitted at a tool surface = off ---------- *)
+  Theorem surface_flag_omitted surface : surface_flag surface None = false.
+  Proof.
+    unfold surface_flag, surface_default. destruct repair_switch_defaults_pin as (-> & -> & ->).
+    destruct (surface =? 1), (surface =? 2), (surface =? 3); reflexivity.
+  Qed.
+  Theorem surface_flag_explicit surface b : surface_flag surface (Some b) = b.
+  Proof. reflexivity. Qed.
+  (* octave_validate without `fix`, octave_write without `lenient`, the CLI without --fix (any surface code): nothing
+     changes and nothing is logged, whatever else the call carries (profile and the other arguments are not inputs) *)
+  Theorem repair_switch_omitted surface sch d : repair (surface_flag surface None) sch d = (d, []).
+  Proof. rewrite surface_flag_omitted. apply repair_fix_off. Qed.
+  Theorem repair_switch_false surface sch d : repair (surface_flag surface (Some false)) sch d = (d, []).
+  Proof. apply repair_fix_off. Qed.
+
   (* ---------- lossless number coercion (80b6126: underflow to zero is rejected) ---------- *)
   Lemma rules_distinct : repair_rule_type <> repair_rule_enum.
   Proof. vm_compute. discriminate. Qed.
